@@ -70,6 +70,18 @@ def small_program(r):
         for i in (1, 2):
             ops.append(('OAddRequired', N(i), ('ArgC', N(1)), False, Z(0), Z(0)))
         return ops
+    if r.random() < 0.12:
+        # two tasks that share two workers, one of them joined dynamically or with delays: what keeps the tasks apart must
+        # not depend on which worker was declared first
+        ops = [('ONewProblem', terms.optZ(r.choice([5, 6, 8])))]
+        for i in (1, 2):
+            ops.append(('ONewTask', N(i), ('KFixed', Z(3)), False, Z(0), None, None, False, Z(1)))
+        ops += [('ONewWorker', N(1), Z(1), ('CostConst', Z(0))), ('ONewWorker', N(2), Z(1), ('CostConst', Z(0)))]
+        dyn = r.random() < 0.5
+        for i in (1, 2):
+            ops.append(('OAddRequired', N(i), ('ArgW', ('WPlain', N(1))), dyn, Z(0 if dyn else 1), Z(0 if dyn else 1)))
+            ops.append(('OAddRequired', N(i), ('ArgW', ('WPlain', N(2))), False, Z(0), Z(0)))
+        return ops
     ops = [('ONewProblem', terms.optZ(hz))]
     nt = r.randint(2, 3)
     for i in range(1, nt + 1):
